@@ -861,7 +861,7 @@ def corr_expr(ctx):
 
 def correspondence(ctx):
     corr_expr(ctx)
-    for fn in (globals().get("corr_history"), globals().get("corr_world"), globals().get("corr_decomp")):
+    for fn in (globals().get("corr_history"), globals().get("corr_bind"), globals().get("corr_decomp")):
         if fn:
             fn(ctx)
 
@@ -1142,7 +1142,7 @@ def search_corpus(ctx):
             bad = prog_predicate(d["spec"])
         elif d.get("check") == "expr":
             bad = expr_predicate(d["case"])
-        elif d.get("check") in ("cross", "decomp", "history", "stale"):
+        elif d.get("check") in ("cross", "decomp", "history", "stale", "bind"):
             fn = globals().get(d["check"] + "_predicate")
             bad = fn(d) if fn else None
         ctx.case({"kind": "corpus", "file": os.path.basename(path)}, nontrivial=True, bucket="corpus")
@@ -1205,9 +1205,14 @@ def gen_history(rng):
     free = {nm: rng.choice([0.5, -0.75, 1.25, 0.25]) for nm in names}
     mode = rng.choice(["eager", "lazy", "lazy"])
     segs = []
+    stale = []
     measured = set()
     for si in range(nseg):
         seg = []
+        if si > 0 and rng.random() < 0.2:
+            seg.append(["reset"])       # eng.reset() before this segment
+            stale = sorted(measured)
+            measured.clear()
         if si == 0 and rng.random() < 0.75:
             seg.append(["meas", rng.randrange(n), rng.choice([0.25, -0.5, 0.75, 1.0])])
             measured.add(seg[-1][1])
@@ -1222,6 +1227,8 @@ def gen_history(rng):
                 ks = list(range(n))
                 if measured and rng.random() < 0.85:
                     ks = sorted(measured)      # mostly valid: outcomes that exist at this point
+                elif stale and rng.random() < 0.7:
+                    ks = stale                 # outcomes from before a reset: must raise
                 if mode == "eager":
                     # eager construction shares q[k].par symbols between segment programs through the sympy
                     # cache (finding cache:symbol-shared-between-programs): keep the indices disjoint
@@ -1267,6 +1274,8 @@ def impl_history(h):
                     ops.MeasureHomodyne(0.0, select=e[2]) | q[e[1]]
                 elif e[0] == "prep":
                     ops.Coherent(0.3, 0.1) | q[e[1]]
+                elif e[0] == "reset":
+                    pass
                 else:
                     ops.Rgate(build_expr(e[1], prog.params, lambda k: q[k].par)) | q[e[2]]
         return prog
@@ -1282,6 +1291,8 @@ def impl_history(h):
                 progs.append(build(si, progs[-1] if progs else None))
         prev = None
         for si in range(len(h["segs"])):
+            if h["segs"][si] and h["segs"][si][0][0] == "reset":
+                eng.reset()
             p = progs[si] if h["mode"] == "eager" else build(si, prev)
             eng.run(p, args={k: v for k, v in h["free"].items() if k in p.free_params})
             prev = p
@@ -1298,13 +1309,15 @@ def enc_history(h):
             return "EMeas [%d] [[%s]]" % (e[1], coq.coq_float(e[2]))
         if e[0] == "prep":
             return "EPrep %d" % e[1]
+        if e[0] == "reset":
+            return "EReset"
         return "EUse %s" % enc_expr(e[1])
     fp = coq.coq_list(sorted(h["free"].items()), lambda kv: "(%d, mkF (Some (S %s)) None)" % (NAME_IDS[kv[0]], coq.coq_float(kv[1])))
     segs = coq.coq_list(h["segs"], lambda seg: coq.coq_list(seg, enc_ev))
     return fp, segs
 
 
-def history_predicate(d):
+def history_predicate(d, explained=False):
     """Property predicate for a history on the implementation: every use evaluates its parameter under the
     most recent outcomes (of the whole multi-segment history), ParameterError if a mode was never measured."""
     h = d["history"] if "history" in d else d
@@ -1314,14 +1327,16 @@ def history_predicate(d):
         for e in seg:
             if e[0] == "meas":
                 store[e[1]] = [e[2]]
+            elif e[0] == "reset":
+                store = {}
             elif e[0] == "use":
                 want.append(ref_eval(e[1], {k: [v, None] for k, v in h["free"].items()}, store))
     for i, w in enumerate(want):
         if i >= len(log):
-            return ("history:" + ("cross-segment" if len(h["segs"]) > 1 else "single") + ":aborted", "run stopped with %s before use #%d" % (err, i))
+            return ("run:cross-segment-measured-value" if (explained and len(h["segs"]) > 1) else "history:aborted", "run stopped with %s before use #%d" % (err, i))
         g = log[i]
         if g[0] != w[0] or (g[0] == "ok" and not close(g[1], w[1], 1e-7)):
-            cross = len(h["segs"]) > 1
+            cross = len(h["segs"]) > 1 and explained
             return ("run:cross-segment-measured-value" if cross else "history:latest-outcome",
                     "use #%d evaluated to %r, the most recent outcomes give %r" % (i, g, w))
         if w[0] != "ok":
@@ -1368,6 +1383,11 @@ def corr_history(ctx):
             elif len(log) < len(mw) and not any(w[0] != "ok" or isinstance(w[1], list) for w in mw[:len(log) + 1]):
                 bad = "implementation stopped with %s after %d uses; the model sees no error there" % (err, len(log))
         if bad:
+            # not the hand-over as written: is it the repaired one (whole store handed over, C10_segments_ideal)?
+            mi = [model_outcome(x) for x in m[1]]
+            if history_predicate(h) is None and all(i < len(mi) and g[0] == mi[i][0] and (g[0] != "ok" or close(g[1], mi[i][1], 1e-7)) for i, g in enumerate(log)):
+                ctx.hist["hist-follows-ideal-handover"] = ctx.hist.get("hist-follows-ideal-handover", 0) + 1
+                continue
             pb = history_predicate(h)
             data = {"check": "history", "history": h, "impl_log": [list(x) for x in log], "impl_error": err, "model": [list(x) for x in mw]}
             if pb:
@@ -1378,7 +1398,8 @@ def corr_history(ctx):
         # the model says as-written differs from ideal here: evaluate the property on the implementation
         mi = [model_outcome(x) for x in m[1]]
         if mw != mi:
-            pb = history_predicate(h)
+            # explained by the model of the hand-over as written (which the implementation follows here)
+            pb = history_predicate(h, explained=True)
             if pb:
                 ctx.counterexample(pb[0], pb[1], {"check": "history", "history": h})
 
@@ -1522,5 +1543,210 @@ def replay_cross(ctx, d):
 
 def replay_stale(ctx, d):
     bad = stale_predicate(d)
+    print("predicate:", bad)
+    return bad is not None
+
+
+# ---------------------------------------------------------------------------------------
+# correspondence D: Program.params / bind_params vs the model's bind_params
+
+def gen_bind_case(rng):
+    have = rng.sample(NAMES, rng.randint(1, 3))
+    params = {}
+    for nm in have:
+        r = rng.random()
+        params[nm] = [rng.choice(DY) if r < 0.3 else None, rng.choice(DY) if 0.2 < r < 0.6 else None]
+    keys = rng.sample(NAMES, rng.randint(0, 3)) if rng.random() < 0.35 else rng.sample(have, rng.randint(0, len(have)))
+    return {"check": "bind", "params": params, "binding": [[k, rng.choice(DY)] for k in keys], "by_object": rng.random() < 0.3}
+
+
+def impl_bind(c):
+    fresh_caches()
+    prog = sf.Program(1)
+    for nm, (v, d) in sorted(c["params"].items()):
+        p = prog.params(nm)
+        if v is not None:
+            prog.bind_params({nm: v})
+        if d is not None:
+            p.default = d
+    binding = {}
+    for k, v in c["binding"]:
+        binding[prog.free_params[k] if (c["by_object"] and k in prog.free_params) else k] = v
+    try:
+        prog.bind_params(binding)
+        ok = True
+    except sfpar.ParameterError:
+        ok = False
+    vals = []
+    for nm in NAMES:
+        if nm not in prog.free_params:
+            vals.append(None)
+            continue
+        try:
+            vals.append(float(sfpar.par_evaluate(prog.free_params[nm])))
+        except sfpar.ParameterError:
+            vals.append(None)
+    return ok, vals
+
+
+def bind_predicate(c):
+    """bind_params raises ParameterError iff a key is not a parameter of the program; afterwards a bound name
+    evaluates to its bound value, an untouched one to what it evaluated to before."""
+    ok, vals = impl_bind(c)
+    unknown = [k for k, _ in c["binding"] if k not in c["params"]]
+    if unknown and ok:
+        return ("bind:unknown-name-accepted", "bind_params accepted the unknown names %r without raising ParameterError" % unknown)
+    if not unknown and not ok:
+        return ("bind:known-name-rejected", "bind_params raised although every name is a parameter of the program")
+    if ok:
+        b = dict((k, v) for k, v in c["binding"])
+        for i, nm in enumerate(NAMES):
+            if nm in c["params"]:
+                v, d = c["params"][nm]
+                want = b.get(nm, v if v is not None else d)
+                if (want is None) != (vals[i] is None) or (want is not None and abs(want - vals[i]) > 1e-12):
+                    return ("bind:value", "after bind_params parameter %s evaluates to %r, expected %r" % (nm, vals[i], want))
+    return None
+
+
+def corr_bind(ctx):
+    rng = ctx.rng
+    cases = [gen_bind_case(rng) for _ in range(ctx.budget(80, 600))]
+    items = []
+    for c in cases:
+        fs = coq.coq_list(sorted(c["params"].items()), lambda kv: "(%d, mkF %s %s)" % (NAME_IDS[kv[0]], enc_opt(kv[1][0], enc_value), enc_opt(kv[1][1], enc_value)))
+        b = coq.coq_list(c["binding"], lambda kv: "(%d, %s)" % (NAME_IDS[kv[0]], enc_value(kv[1])))
+        items.append("(%s, %s)" % (fs, b))
+    text = (COQ_HEAD + "Definition cases : list (list (nat * fpar float) * list (nat * value float)) := [\n" + ";\n".join(items) + "].\n"
+            "Eval vm_compute in map (fun c => let r := bind_params (lookup (fst c)) (snd c) in (snd r, map (free_env (fst r)) [0;1;2;3])) cases.\n")
+    ok, vals, raw = ctx.coq_eval("cases_bind", text)
+    if not ok:
+        ctx.obligation("correspondence:bind", False, raw)
+        return
+    ctx.traces += len(cases)
+    for c, m in zip(cases, vals[0]):
+        mok = bool(m[0])
+        mvals = [None if v is None else float(v[1][1]) for v in m[1]]
+        iok, ivals = impl_bind(c)
+        ctx.case(c, nontrivial=any(k not in c["params"] for k, _ in c["binding"]) or len(c["binding"]) > 1, bucket="bind-" + ("ok" if iok else "error"))
+        if mok != iok or any((a is None) != (b is None) or (a is not None and abs(a - b) > 1e-12) for a, b in zip(mvals, ivals)):
+            bad = bind_predicate(c)
+            if bad:
+                ctx.counterexample(bad[0], bad[1], c)
+            else:
+                ctx.disagreement("corr:bind", "model (%r, %r) vs implementation (%r, %r)" % (mok, mvals, iok, ivals), c)
+
+
+def replay_bind(ctx, d):
+    print("implementation:", impl_bind(d))
+    bad = bind_predicate(d)
+    print("predicate:", bad)
+    return bad is not None
+
+
+# ---------------------------------------------------------------------------------------
+# correspondence E: the decomposition table of the model vs Operation.decompose, with numeric and with
+# symbolic parameters (the latter evaluated after decomposition: decomposition commutes with evaluation)
+
+DECOMP_CLS = {"Xgate": 1, "Zgate": 2, "Pgate": 5, "MZgate": 7, "sMZgate": 8, "S2gate": 9, "CXgate": 10, "CZgate": 11,
+              "Fouriergate": 12, "DisplacedSqueezed": 13}
+RESULT_CLS = {"Dgate": 0, "Sgate": 3, "Rgate": 4, "BSgate": 6, "CXgate": 10, "Squeezed": 14}
+DECOMP_ARITY = {"Xgate": 1, "Zgate": 1, "Pgate": 1, "MZgate": 2, "sMZgate": 2, "S2gate": 2, "CXgate": 1, "CZgate": 1, "Fouriergate": 0, "DisplacedSqueezed": 4}
+
+
+def decomp_oracle(name, xs):
+    o = []
+    if name == "Pgate":
+        temp = xs[0] / 2.0
+        a1 = 1.0 + (1.0 * temp) * temp
+        sq = _f1("sqrt", a1)
+        o += [(FN_IDS["sqrt"], (a1,), sq), (FN_IDS["acosh"], (sq,), _f1("acosh", sq)), (FN_IDS["atan"], (temp,), _f1("atan", temp)), (FN_IDS["sign"], (temp,), _f1("sign", temp))]
+    if name == "CXgate":
+        arg = (-xs[0]) / 2.0
+        r = _f1("asinh", arg)
+        ch, th = _f1("cosh", r), _f1("tanh", r)
+        y, x = (-1.0) / ch, -th
+        o += [(FN_IDS["asinh"], (arg,), r), (FN_IDS["cosh"], (r,), ch), (FN_IDS["tanh"], (r,), th), (FN_IDS["atan2"], (y, x), _f2("atan2", y, x))]
+    return o
+
+
+def gen_decomp_case(rng):
+    name = rng.choice(sorted(DECOMP_CLS))
+    xs = [rng.choice([0.0, 0.5, -0.5, 1.0, -2.0, 3.0, 1e-3, -7.5]) if rng.random() < 0.5 else round(rng.uniform(-3, 3), 3) for _ in range(DECOMP_ARITY[name])]
+    nm = 2 if name in ("MZgate", "sMZgate", "S2gate", "CXgate", "CZgate") else 1
+    modes = rng.sample(range(NMODES), nm)
+    dagger = name != "DisplacedSqueezed" and rng.random() < 0.4
+    return {"check": "decomp", "name": name, "xs": xs, "modes": modes, "dagger": dagger}
+
+
+def impl_decomp(c, symbolic):
+    fresh_caches()
+    prog = sf.Program(NMODES)
+    names = NAMES[:len(c["xs"])]
+    if symbolic:
+        ps = [prog.params(n) for n in names]
+        prog.bind_params(dict(zip(names, c["xs"])))
+    else:
+        ps = list(c["xs"])
+    op = getattr(ops, c["name"])(*ps)
+    if c["dagger"]:
+        op = op.H
+    seq = op.decompose([prog.register[m] for m in c["modes"]])
+    out = []
+    for cmd in seq:
+        vals = [float(v) for v in sfpar.par_evaluate(cmd.op.p)]
+        out.append((cmd.op.__class__.__name__, vals, [r.ind for r in cmd.reg], bool(getattr(cmd.op, "dagger", False))))
+    return out
+
+
+def decomp_predicate(c):
+    a, b = impl_decomp(c, True), impl_decomp(c, False)
+    same = len(a) == len(b) and all(x[0] == y[0] and x[2] == y[2] and x[3] == y[3] and close(x[1], y[1], 1e-9) for x, y in zip(a, b))
+    if same:
+        return None
+    return ("decomp:%s" % c["name"], "%s%s decomposed with symbolic parameters and then evaluated gives %r, decomposed with the numbers gives %r" % (c["name"], ".H" if c["dagger"] else "", a, b))
+
+
+def corr_decomp(ctx):
+    rng = ctx.rng
+    cases = [gen_decomp_case(rng) for _ in range(ctx.budget(80, 800))]
+    items = []
+    for c in cases:
+        t1, t2 = enc_oracle(decomp_oracle(c["name"], c["xs"]))
+        xs = c["xs"] if c["name"] != "Fouriergate" else [math.pi / 2]
+        items.append("(%s, %s, mkG %d %s %s %s)" % (t1, t2, DECOMP_CLS[c["name"]], coq.coq_list(xs, coq.coq_float), coq.coq_list(c["modes"], str), coq.coq_bool(c["dagger"])))
+    text = (COQ_HEAD + "Definition cases : list (list (nat*float*float) * list (nat*float*float*float) * gate float) := [\n" + ";\n".join(items) + "].\n"
+            "Eval vm_compute in map (fun c => match c with (t1, t2, g) => option_map (map (fun g => (gcls g, gpar g, gmodes g, gdag g))) (decomp_val t1 t2 g) end) cases.\n")
+    ok, vals, raw = ctx.coq_eval("cases_decomp", text)
+    if not ok:
+        ctx.obligation("correspondence:decomp", False, raw)
+        return
+    ctx.traces += len(cases)
+    for c, m in zip(cases, vals[0]):
+        ctx.case(c, nontrivial=c["dagger"] or c["name"] in ("Pgate", "CXgate", "CZgate"), bucket="decomp-" + c["name"])
+        if m is None:
+            ctx.obligation("correspondence:decomp-table", False, "model has no decomposition for %r" % (c,))
+            continue
+        mod = [(int(g[0]), [float(x) for x in g[1]], [int(x) for x in g[2]], bool(g[3])) for g in m[1]]
+        if any(x == MISS for g in mod for x in g[1]):
+            ctx.obligation("correspondence:function-table", False, "decomposition reached an untabulated function argument: %r" % (c,))
+            continue
+        for symbolic in (False, True):
+            imp = impl_decomp(c, symbolic)
+            agree = len(imp) == len(mod) and all(RESULT_CLS.get(x[0]) == y[0] and close(x[1], y[1], 1e-9) and x[2] == y[2] and x[3] == y[3] for x, y in zip(imp, mod))
+            if not agree:
+                bad = decomp_predicate(c)
+                data = dict(c, impl=[list(x) for x in imp], model=[list(x) for x in mod], symbolic=symbolic)
+                if bad:
+                    ctx.counterexample(bad[0], bad[1], data)
+                else:
+                    ctx.disagreement("corr:decomp:" + c["name"], "model %r vs implementation (%s parameters) %r" % (mod, "symbolic" if symbolic else "numeric", imp), data)
+                break
+
+
+def replay_decomp(ctx, d):
+    print("symbolic:", impl_decomp(d, True))
+    print("numeric :", impl_decomp(d, False))
+    bad = decomp_predicate(d)
     print("predicate:", bad)
     return bad is not None
